@@ -12,7 +12,33 @@ MONITOR_CFG = ("SPECIFICATION Spec\nCONSTANTS\n  TraceFile = \"@TRACE@\"\n"
                "POSTCONDITION Consumed\nCHECK_DEADLOCK FALSE\n")
 
 
-def run(tier, scratch, drv, only_cases=None):
+def attr_cases():
+    out = []
+    for url in ("ws", "wss"):
+        for tlscfg in ("n", "y"):
+            if url == "wss" and tlscfg == "n":
+                continue   # cannot verify the test certificate
+            enc = "tls" if url == "wss" else "none"
+            out.append({"cfg": {"kind": "wsattr", "k": 0, "url": url, "tlscfg": tlscfg},
+                        "obs": [{"op": "attr", "side": url, "res": "cli:%s,srv:%s" % (enc, enc), "v": 0}]})
+    return out
+
+
+class Attr:
+    """Only the dial-attribute cases (C09: both ends of a connection report the same encryption)."""
+    __name__ = "engines.transport"
+
+    @staticmethod
+    def run(tier, scratch, drv, only_cases=None):
+        cases = only_cases
+        if cases is None:
+            cases = attr_cases()
+            for i, c in enumerate(cases):
+                c["n"] = i + 1
+        return run(tier, scratch, drv, only_cases=cases, model={"states": 1, "transitions": 1, "invariants_checked": True})
+
+
+def run(tier, scratch, drv, only_cases=None, model=None):
     res = {"engine": "transport", "toggles": {}}
     if only_cases is None:
         depth = 4 if tier == "quick" else 5
@@ -33,12 +59,13 @@ def run(tier, scratch, drv, only_cases=None):
                 states += st.get("distinct", 0)
                 gen += st.get("generated", 0)
                 wall += st["wall_s"]
+        cases += attr_cases()
         for i, c in enumerate(cases):
             c["n"] = i + 1
         res["model"] = {"states": states, "transitions": gen, "wall_s": round(wall, 2), "invariants_checked": True}
     else:
         cases = only_cases
-        res["model"] = {}
+        res["model"] = model or {}
     if not cases:
         raise vlib.Inconclusive("no cases generated")
     cp = os.path.join(scratch, "trans_cases_%d.ndjson" % len(cases))
